@@ -537,9 +537,13 @@ func c11scenarios(quick bool) []c11scn {
 		add(c11scn{Fam: fam, Seq: []int{1, 6}, Workers: 2, Bound: 1, Switch: 1, NumCPU: 16, Deep: true})
 		add(c11scn{Fam: fam, Seq: []int{1, 2}, Workers: 2, Bound: 1, Switch: 1, NumCPU: 16, Deep: true})
 		add(c11scn{Fam: fam, Seq: []int{1, 6}, Workers: 2, Bound: 1, Switch: 1, NumCPU: 16, Deep: true, Taxa7: true})
-		add(c11scn{Fam: fam, Seq: []int{6, 2, 1}, Workers: 2, Bound: 1, Switch: 1, NumCPU: 16, Deep: true, Taxa7: true})
-		add(c11scn{Fam: fam, Seq: []int{0, 5, 1}, Workers: 2, Bound: 1, Switch: 1, NumCPU: 16, Deep: true})
+		if quick && (fam == "compare" || fam == "fbp") {
+			// three trees: two workers re-index different trees at the same time
+			add(c11scn{Fam: fam, Seq: []int{6, 2, 1}, Workers: 2, Bound: 1, Switch: 1, NumCPU: 16, Deep: true, Taxa7: true})
+		}
 		if !quick {
+			add(c11scn{Fam: fam, Seq: []int{6, 2, 1}, Workers: 2, Bound: 1, Switch: 1, NumCPU: 16, Deep: true, Taxa7: true})
+			add(c11scn{Fam: fam, Seq: []int{0, 5, 1}, Workers: 2, Bound: 1, Switch: 1, NumCPU: 16, Deep: true})
 			add(c11scn{Fam: fam, Seq: []int{1, 6, 2}, Workers: 3, Bound: 1, Switch: 1, NumCPU: 16, Deep: true})
 			add(c11scn{Fam: fam, Seq: []int{1, 6}, Workers: 2, Bound: 2, Switch: 1, NumCPU: 16, Deep: true})
 		}
